@@ -106,6 +106,18 @@ def suite_refwrites(rng, tier, flavour):
 def suite_crafted(rng, tier, flavour):
     yield from gen.crafted_programs(rng, flavour, 150 if tier == "quick" else 1500)
 
+def suite_mixed(rng, tier, flavour):          # C12: one directory handed between the three binaries
+    if flavour != "sync":
+        return
+    n = 150 if tier == "quick" else 1500
+    for i in range(n):
+        big = 0.1 if i % 60 == 0 else 0.0
+        w = dict(W_ALL, damage_content=1) if i % 3 else {"write": 2, "stream": 2, "insert": 3, "remove": 2, "lookup": 5}
+        p = gen.api_program(rng, "astd", rng.randrange(8, 30), w, big=big, hostile=0.3)
+        yield (gen.mix_flavours(rng, p), ["sync", "astd", "tok"], {})
+    for p in gen.damage_programs(rng, "astd", 2 if tier == "quick" else 30, exhaustive_cuts=False):
+        yield (gen.mix_flavours(rng, p), ["sync", "astd", "tok"], {})
+
 Q2 = {"quick": ["sync", "astd"], "thorough": ["sync", "astd", "tok"]}
 Q3 = {"quick": ["sync", "astd", "tok"], "thorough": ["sync", "astd", "tok"]}
 
@@ -114,8 +126,8 @@ REGISTRY = {
             "rule": "several writes to one key with fields (data, time incl. 2^128-1, JSON metadata trees, raw bytes, declared size, single/multi-hash integrity) drawn from small pools so that successive records differ in one field or repeat earlier values, via streamed writers and index::insert, read back by metadata/find/list after each; bucket bytes compared byte for byte (explicit times); default time checked against the call's wall-clock window."},
     "C17": {"flavours": Q3, "suites": [("refwrites", suite_refwrites), ("meta", suite_meta), ("hist", suite_hist)],
             "rule": "both directions: buckets written by the python reference writer in several valid JSON spellings (spaces, \\uXXXX escapes, shuffled / extra / omitted optional fields) read by the library; library-written caches read by the naive reference reader (refcheck after every index write); bucket bytes and paths compared with the model byte for byte."},
-    "C20": {"flavours": Q3, "suites": [("crafted", suite_crafted), ("all", suite_all), ("abandon", suite_abandon)], "no_panic": True,
-            "rule": "crafted checksum-valid records (odd integrity strings, non-object JSON, missing fields, 200-deep nesting), directories and dangling symlinks at bucket and content paths, declared-size chunkings, plus the general and abandonment programs; every call under catch_unwind and a watchdog: any panic or hang of the implementation is a violation whatever the model says."},
+    "C20": {"flavours": Q3, "suites": [("crafted", suite_crafted), ("all", suite_all), ("abandon", suite_abandon), ("damage", suite_damage)], "no_panic": True,
+            "rule": "crafted checksum-valid records (odd integrity strings, non-object JSON, missing fields, 200-deep nesting), directories and dangling symlinks at bucket and content paths, declared-size chunkings, buckets with records cut at every byte length / garbage / invalid UTF-8 lines, plus the general and abandonment programs; every call under catch_unwind and a watchdog: any panic or hang of the implementation is a violation whatever the model says."},
     "C02": {"flavours": Q3, "suites": [("roundtrip", suite_roundtrip), ("roundtrip_ok", suite_roundtrip_ok)],
             "rule": "random programs of writes through every entry point (one-shot, streamed with random chunkings incl. empty/single-byte/decreasing, keyed and by address, with/without declared size, five algorithms, small/hostile keys, sizes 0..16 KiB+1 and occasionally 1 MiB-1/0/+1 and 3 MiB) each followed by reads by key, by address, streamed reads and metadata."},
     "C08": {"flavours": Q3, "suites": [("commit", suite_commit)],
@@ -130,8 +142,8 @@ REGISTRY = {
             "rule": "programs that store data then damage content files (bit flip, truncation, extension, emptying, bytes of another entry, deletion, symlink substitution) and retrieve through every checked entry point (read, read_hash, streamed reader + check, copy/hard_link/reflink)."},
     "C18": {"flavours": Q3, "suites": [("extract", suite_extract), ("damage_content", suite_damage_content)],
             "rule": "copy / hard_link / reflink by key and by address, checked and unchecked, to fresh and existing destinations, on pristine and damaged content; results, byte counts and destination files compared."},
-    "C12": {"flavours": Q3, "suites": [("all", suite_all), ("damage", suite_damage)],
-            "rule": "all op kinds incl. damage on three flavours; each binary must match the one deterministic model, hence each other."},
+    "C12": {"flavours": Q3, "suites": [("all", suite_all), ("damage", suite_damage), ("mixed", suite_mixed)],
+            "rule": "all op kinds incl. content and index damage on three flavours; each binary must match the one deterministic model step by step and tree by tree, hence each other; plus mixed-flavour programs: one cache directory shared by the sync-only, async-std and tokio binaries, every op routed to a random one of them through its sync or async entry point (writer/reader handles stay with the process that opened them)."},
     "C05": {"flavours": Q3, "suites": [("hist", suite_hist), ("foreign", suite_foreign)],
             "rule": "exhaustive histories over 2 keys x 2 values x {insert,remove} x {sync,async} up to length 2 (quick) / 3 (thorough) with lookups of both keys after every step, plus random histories of 3..40 ops (index::insert with random options, real writes, removes) over small and hostile keys, lookups via find/metadata/read/list; plus buckets pre-filled with interleaved records of the key and of foreign keys (as if their SHA-1 collided), foreign tombstones after the key's last write included."},
     "C06": {"flavours": Q3, "suites": [("damage", suite_damage), ("bitflips", suite_bitflips)],
